@@ -308,7 +308,14 @@ theorem parseOAttrs_some (a : AttrSt) (t : TAttr) (ts : List TAttr) (ht : plainT
       have : a.vals = [] := List.isEmpty_iff.mp hemp
       rw [this] at hlen; simpa using hlen
     subst hbl0
-    simp [this, attrContent]
+    -- no values: by `AttrOk` the value is a list (a scalar has exactly one value), so the count is 0
+    have hv0 : a.vals = [] := List.isEmpty_iff.mp hemp
+    have hc0 : a.count = 0 := by
+      unfold AttrSt.count
+      cases hil : a.isList
+      · have := hok.2 hil; rw [hv0] at this; simp at this
+      · simp [hv0]
+    simp [this, attrContent, hc0]
   · have hd1 : d % 2 = 1 := hv.mpr (by simp [hemp])
     simp only [hd1, ↓reduceIte]
     -- with values there is a representation code, and count = number of values
